@@ -143,3 +143,24 @@ package ssh
 //@ props C24
 //@ fresh result
 //@ ensures appended(result, buf, 1) && result[len(buf)] == ite(b, 1, 0)
+
+// ---- C35: channel window accounting (RFC 4254 section 5.2) ----
+// Locks are scheduling points (the heap is arbitrary after Lock, Unlock and
+// Wait), so what is stated are facts inside the critical section and about
+// the value returned.
+
+//@ monitor window guards win writeWaiters closed
+
+//@ func (*window).add
+//@ props C35
+//@ requires w.Cond != nil
+//@ ensures implies(win == 0, result)
+//@ assert_at "w.win += win" w.win + win <= 4294967295
+//@ canary assert_at "w.win += win" w.win + win < 4294967295
+
+//@ func (*window).reserve
+//@ props C35
+//@ requires w.Cond != nil
+//@ ensures result0 <= win
+//@ assert_at "w.win -= win" win <= w.win
+//@ canary ensures result0 == win
